@@ -56,7 +56,7 @@ def line(fields):
 
 class C14(Property):
     id = "C14"
-    lean_module = "RosuModel.Props.C14Full"   # imports Props/C14Split.lean → Props/C14.lean and Lemmas/HoGrammar*.lean; all in namespace Rosu.C14 (the grammar in Rosu.C14.HoSpec)
+    lean_module = "RosuModel.Props.C14Full"   # imports Props/C14Grammar.lean (→ Props/C14Split.lean → Props/C14.lean and Lemmas/HoGrammar*.lean) and Props/C14Ieee.lean; all in namespace Rosu.C14 (the grammar in Rosu.C14.HoSpec)
     theorem_modules = ['RosuModel.Props.C14Grammar', 'RosuModel.Props.C14Ieee']   # files whose top-level theorems are all audited
     namespace = "Rosu.C14"
     design_ref = "5.14"
@@ -88,7 +88,9 @@ class C14(Property):
                          "HoSpec.nodeSamples_length", "HoSpec.slider_repeat_cap", "HoSpec.lengthField_absent", "HoSpec.lengthField_present",
                          "HoSpec.coordinate_truncated", "HoSpec.head_error_cases", "HoSpec.head_tooFewFields", "HoSpec.body_noKind",
                          "HoSpec.circle_error_cases", "HoSpec.slider_error_cases", "HoSpec.spinner_error_cases", "HoSpec.hold_error_cases",
-                         "HoSpec.specLine_error_cases", "rejected_line_reasons"]
+                         "HoSpec.specLine_error_cases", "rejected_line_reasons",
+                         # Props/C14Ieee.lean: the order hypotheses of max_zero_nonneg discharged for the driver's Float / Float32
+                         "max_zero_nonneg_ieee", "max_zero_nonneg_float", "max_zero_nonneg_float32", "max_zero_ge_float", "max_zero_ge_float32"]
     partial_theorems = {
         "reference grammar": "proved, not partial: parse_eq_reference — for every game mode, decoder state, line and Scalar instance (no arithmetic law, number "
             "parser abstract) the model of parse_hit_objects returns the verdict, the object and the state change of the declarative grammar HoSpec.specLine / HoSpec.step "
@@ -99,14 +101,17 @@ class C14(Property):
             "format rules and lib/refho.py and then had to agree with the code; the points where the rule text and the code part ways are listed in DESIGN.md 5.14",
         "path splitting": "closed: HoSpec.segment_eq covers every convert_points call (including a later segment that is a type piece only, which contributes its handed-over "
             "point) and HoSpec.path_eq composes convertPathStr_spec with it into one formula for the whole path string (HoSpec.path)",
-        "max_zero_nonneg / durations": "proved from three order facts about `<` (irreflexive, asymmetric, false on NaN) taken as hypotheses; the hold duration "
-            "`max(start,end) - start ≥ 0` additionally needs field laws and is only exercised",
+        "max_zero_nonneg / durations": "the generic form takes three order facts about `<` (irreflexive, asymmetric, false on NaN) as hypotheses. For the driver's Float / Float32 they are now theorems "
+            "(Props/C14Ieee.lean; Lean 4.33's Float is a structure over the logical model Float.Model and `<` reduces in the kernel; order theory of Lemmas/FloatModelCompare.lean, class FMO.IeeeOrd): "
+            "max_zero_nonneg_ieee, max_zero_nonneg_float, max_zero_nonneg_float32 (a spinner's max(end − start, 0) / a slider's max(length, 0) is never below 0) and, in the ordinary sense, "
+            "max_zero_ge_float / max_zero_ge_float32 (0 <= max x 0 and max x 0 is not NaN, even for a NaN x) — no hypothesis. The hold duration "
+            "`max(start,end) - start ≥ 0` additionally needs field laws (exact arithmetic; not proved for IEEE) and is only exercised",
     }
     level_text = ("Lean 4 theorems over the model of parse_hit_objects / convert_path_str / read_custom_sample_banks / convert_sound_type: flag precedence "
                   "circle > slider > spinner > hold on the masked type (combo bits cleared, kind bits untouched), unknown type or bad header ⇒ rejected without effect, "
                   "an accepted line pushes exactly one object of the selected class with the line's start time and remembers the masked type, combo offset only with the "
                   "new-combo bit, forced new combo for first object / after spinner, repeat cap 9000, repeats+2 node sample sets, length none/some rule, spinner duration "
-                  "max(end-start,0), position = truncated f32 parse, perfect-curve downgrade rules, hit-sound byte → sample list, bank field semantics; the duplicate-splitting loop of "
+                  "max(end-start,0) (never below 0 and never NaN for IEEE doubles, with no order hypothesis: max_zero_nonneg_float, max_zero_ge_float), position = truncated f32 parse, perfect-curve downgrade rules, hit-sound byte → sample list, bank field semantics; the duplicate-splitting loop of "
                   "convert_points in closed form (Props/C14Split.lean: split indices = repeated vertex, not Catmull beyond index 1, not the segment's last vertex; the repeated "
                   "vertex is dropped and its predecessor typed — so a run of k equal points keeps one; first point of a path = origin with the effective type; the handed-over "
                   "end point enters the perfect-curve test only); and the grammar-level theorem parse_eq_reference (Props/C14Grammar.lean): the parser computes the "
@@ -118,7 +123,10 @@ class C14(Property):
     trusted_base = [
         "Lean 4.33.0 kernel; axioms ⊆ {propext, Classical.choice, Quot.sound} per #print axioms",
         "hand-written model Model/{HitSamples,HitObjectLine,NumParse}.lean tied to /repo by this check's differential run through the public HitObjects::parse_hit_objects",
-        "Rust std: str::split, i32/f32/f64 FromStr, float→int `as` casts (model codec validated by the codec differential of this run)",
+        "Rust std: str::split, i32/f32/f64 FromStr, float→int `as` casts (model codec validated by the codec differential of this run; the casts `as i32`, `as f32`, f64::from, ceil are the kernel-transparent "
+        "bit-level definitions of Model/FloatBits.lean, compared with Rust bit for bit by the codec requests castf64i32, castf32i32, castf64f32, castf32f64, ceilf64, ceilf32, usizef64)",
+        "the *_float / *_float32 theorems are about Lean 4.33's logical float model Float.Model (Float is a structure over it, not opaque); that the compiled @[extern] C operations agree with that model is part of "
+        "Lean's own trusted code base and is compared with Rust bit for bit by the codec differential of this run (fop64 / fop32 <add|sub|mul|div|sqrt|abs|neg|cmp|minmax>)",
     ]
     assumptions = ["the scratch buffer `vertices` is not observed (it is cleared at the start of every convert_points call)"]
     nontrivial_rule = ("hit-object lines from a field-wise generator (type bytes, sound bytes, extras shapes, path strings over all type letters, duplicates, "
